@@ -950,7 +950,7 @@ def esl_hxp_invcdf_loop1 (fuel : Nat) (p : α) (h : ESL_HYPEREXP α) (tol x1 x2 
   | gas + 1 =>
     let x2 := (x2 + (2.0 * (x2 - x1)))
     let f2 := (esl_hxp_cdf x2 h)
-    if (f2 < p) then
+    if ((f2 < p) ∧ (Num.ltInf x2 = true)) then
       esl_hxp_invcdf_loop1 fuel p h tol x1 x2 gas
     else
       esl_hxp_invcdf_exit1 fuel p h tol x1 x2
@@ -1073,7 +1073,7 @@ def esl_mixgev_invcdf_loop2 (fuel : Nat) (p : α) (mg : ESL_MIXGEV α) (tol x2 x
   | gas + 1 =>
     let x2 := (x2 + (2.0 * (x2 - x1)))
     let f2 := (esl_mixgev_cdf x2 mg)
-    if (f2 < p) then
+    if ((f2 < p) ∧ (Num.ltInf x2 = true)) then
       esl_mixgev_invcdf_loop2 fuel p mg tol x2 x1 gas
     else
       esl_mixgev_invcdf_exit2 fuel p mg tol x2 x1
